@@ -246,3 +246,81 @@ def quant_profile(env):
                        ("w", [w2]), ("x", [x]), ("xy", [x, y]), ("au", [a, u]), ("ux", [u, x])):
             p.op("%s_%s" % (q, nm), [BOOL], BOOL, (lambda Q, vs: lambda m, f: Q(vs, f))(Q, vs))
     return p
+
+
+def mixed_profile(env, quant=False, uf=True):
+    """cross-theory terms: every operator that takes operands of one theory into another (bv2nat, str.len,
+    str.to_int, int.to.str, to_real, select, function application, relations) next to ITE / equality of every
+    sort and the basic operators of each theory, so that a depth-2 term has children of another theory"""
+    p = Profile("mixed", env)
+    m = p.m
+    B2 = ("BV", 2)
+    A = ("Array", INT, INT)
+    AB = ("Array", B2, BOOL)
+    a = p.sym("a", BOOL)
+    x = p.sym("x", INT)
+    r = p.sym("r", REAL)
+    u = p.sym("u", B2)
+    s = p.sym("s", STRING)
+    arr = p.sym("A", A)
+    ab = p.sym("M", AB)
+    if uf:
+        f = p.sym("f", ("Fun", INT, (INT,)))
+        h = p.sym("h", ("Fun", B2, (BOOL, STRING)))
+    p.leaf(BOOL, a, m.TRUE())
+    p.leaf(INT, x, m.Int(0), m.Int(1))
+    p.leaf(REAL, r, m.Real(Fraction(1, 2)))
+    p.leaf(B2, u, m.BV(2, 2))
+    p.leaf(STRING, s, m.String("1"))
+    p.leaf(A, arr, m.Array(mk_type(env, INT), m.Int(1)))
+    p.leaf(AB, ab)
+    # theory crossings
+    p.op("bv2nat", [B2], INT, lambda m, t: m.BVToNatural(t))
+    p.op("strlen", [STRING], INT, lambda m, t: m.StrLength(t))
+    p.op("strtoint", [STRING], INT, lambda m, t: m.StrToInt(t))
+    p.op("inttostr", [INT], STRING, lambda m, t: m.IntToStr(t))
+    p.op("toreal", [INT], REAL, lambda m, t: m.ToReal(t))
+    p.op("select", [A, INT], INT, lambda m, t, i: m.Select(t, i))
+    p.op("selectb", [AB, B2], BOOL, lambda m, t, i: m.Select(t, i))
+    p.op("store", [A, INT, INT], A, lambda m, t, i, v: m.Store(t, i, v))
+    p.op("storeb", [AB, B2, BOOL], AB, lambda m, t, i, v: m.Store(t, i, v))
+    if uf:
+        p.op("f", [INT], INT, lambda m, t: m.Function(f, [t]))
+        p.op("h", [BOOL, STRING], B2, lambda m, t, w: m.Function(h, [t, w]))
+    p.op("strcharat", [STRING, INT], STRING, lambda m, t, i: m.StrCharAt(t, i))
+    # relations and equalities of every sort
+    p.op("le", [INT, INT], BOOL, lambda m, t, w: m.LE(t, w))
+    p.op("lt", [REAL, REAL], BOOL, lambda m, t, w: m.LT(t, w))
+    p.op("eqi", [INT, INT], BOOL, lambda m, t, w: m.Equals(t, w))
+    p.op("eqr", [REAL, REAL], BOOL, lambda m, t, w: m.Equals(t, w))
+    p.op("equ", [B2, B2], BOOL, lambda m, t, w: m.Equals(t, w))
+    p.op("eqs", [STRING, STRING], BOOL, lambda m, t, w: m.Equals(t, w))
+    p.op("eqa", [A, A], BOOL, lambda m, t, w: m.Equals(t, w))
+    p.op("bvult", [B2, B2], BOOL, lambda m, t, w: m.BVULT(t, w))
+    p.op("bvsle", [B2, B2], BOOL, lambda m, t, w: m.BVSLE(t, w))
+    # ite of every sort
+    for nm, so in (("i", INT), ("r", REAL), ("u", B2), ("s", STRING), ("a", A), ("b", BOOL)):
+        p.op("ite" + nm, [BOOL, so, so], so, lambda m, c, t, w: m.Ite(c, t, w))
+    # one or two plain operators per theory
+    p.op("not", [BOOL], BOOL, lambda m, t: m.Not(t))
+    p.op("and", [BOOL, BOOL], BOOL, lambda m, t, w: m.And(t, w))
+    p.op("iff", [BOOL, BOOL], BOOL, lambda m, t, w: m.Iff(t, w))
+    p.op("plus", [INT, INT], INT, lambda m, t, w: m.Plus(t, w))
+    p.op("times", [INT, INT], INT, lambda m, t, w: m.Times(t, w))
+    p.op("minus", [INT, INT], INT, lambda m, t, w: m.Minus(t, w))
+    p.op("rplus", [REAL, REAL], REAL, lambda m, t, w: m.Plus(t, w))
+    p.op("rdiv", [REAL, REAL], REAL, lambda m, t, w: m.Div(t, w))
+    p.op("bvadd", [B2, B2], B2, lambda m, t, w: m.BVAdd(t, w))
+    p.op("bvnot", [B2], B2, lambda m, t: m.BVNot(t))
+    p.op("extract", [B2], ("BV", 1), lambda m, t: m.BVExtract(t, 1, 1))
+    p.op("zext", [("BV", 1)], B2, lambda m, t: m.BVZExt(t, 1))
+    p.op("strconcat", [STRING, STRING], STRING, lambda m, t, w: m.StrConcat(t, w))
+    if quant:
+        y = p.sym("y", INT)
+        v = p.sym("v", B2)
+        p.leaf(INT, y)
+        p.leaf(B2, v)
+        p.op("forall_y", [BOOL], BOOL, lambda m, t: m.ForAll([y], t))
+        p.op("exists_v", [BOOL], BOOL, lambda m, t: m.Exists([v], t))
+        p.op("forall_a", [BOOL], BOOL, lambda m, t: m.ForAll([a], t))
+    return p
